@@ -403,6 +403,25 @@ class Gen:
         return f'DROP TABLE {r.choice(["", "IF EXISTS "])}{self.qual(r.choice(["t3", "t2"]))}'
 
 
+def setop_chain(rng, qual=lambda t: t):
+    """A chain of 2-3 set operations over a low-cardinality column (many duplicate rows, within and across operands), every
+    combination of operators with and without ALL.  Returns (text, operator list)."""
+    r = rng
+    n = r.choice([2, 2, 3])
+    ops = [r.choice(['UNION', 'UNION ALL', 'EXCEPT', 'INTERSECT', 'EXCEPT', 'UNION']) for _ in range(n)]
+    parts = []
+    for i in range(n + 1):
+        al = 'pqrs'[i]
+        t = r.choice(['t1', 't2', 't3'])
+        col = 'x' if t == 't3' else 'a'
+        w = r.choice(['', '', '', f' WHERE {al}.id > 1', f' WHERE {al}.{col} IS NOT NULL', f' WHERE {al}.id < 4'])
+        parts.append(f'SELECT {al}.{col} AS v FROM {qual(t)} AS {al}{w}')
+    text = parts[0]
+    for i, op in enumerate(ops):
+        text += f' {op} {parts[i + 1]}'
+    return text, ops
+
+
 def setop_trailing(rng, qual=lambda t: t):
     """A set operation followed by ORDER BY .. LIMIT: in SQL the trailing clauses belong to the WHOLE set operation.
     Returns (text, model_text): model_text states the other reading - the clauses bound to the last SELECT only."""
